@@ -112,7 +112,13 @@ def h1_session(requests: List[Dict[str, Any]]) -> Dict[str, Any]:
                 "bad": bool(rq.get("bad", False)),
             }
         )
-    return {"stream": parts, "reqs": reqs, "bodies": bodies, "creqs": creqs}
+    cerr_at = 1 << 30
+    for r, c in zip(reqs, creqs):
+        if c["bad"]:
+            cerr_at = min(cerr_at, r["start"])
+        elif c["wantclose"] or c["ver"] == "1.0":
+            cerr_at = min(cerr_at, r["end"])
+    return {"stream": parts, "reqs": reqs, "bodies": bodies, "creqs": creqs, "cerr_at": cerr_at}
 
 
 def simple_resp_program(
